@@ -128,6 +128,8 @@ def gen(rng, tier):
         cases.append(dict(line=arbgen.gen_listener_handover(rng), tags=["listener-handover"]))
     for _ in range(120 if tier == "quick" else 1500):
         cases.append(dict(line=arbgen.gen_replaced_contest(rng, ("ing", "vs", "ts", "pt")), tags=["replaced-object"]))
+    for _ in range(120 if tier == "quick" else 1500):
+        cases.append(dict(line=arbgen.gen_replaced_attached(rng), tags=["replaced-attached-object"]))
     for _ in range(100 if tier == "quick" else 1000):
         cases.append(dict(line=gen_ts_retype(rng), tags=["ts-retype"]))
     n1, n2, n3 = (300, 150, 200) if tier == "quick" else (3000, 1500, 2000)
